@@ -608,3 +608,280 @@ def check_validate_before_ok(ctx, rep, rid):
         if aggregates(fa, 'machine::Machine'):
             ctor.append(fn.short())
     rep.ob(rid, '<inventory>', 'Machine-constructed-only-in-Machine::new', ctor == ['Machine::new'], 'hand-written constructors: %s' % ctor)
+
+
+# ------------------------------------------------------------------ C11
+
+def const_eval(e):
+    """numeric value of an expression built from constants with + - * (else None)"""
+    n = num(e)
+    if n is not None:
+        return n
+    if isinstance(e, tuple) and e and e[0] == 'bin' and e[1] in ('Add', 'Sub', 'Mul'):
+        a, b = const_eval(e[2]), const_eval(e[3])
+        if a is None or b is None:
+            return None
+        return a + b if e[1] == 'Add' else (a - b if e[1] == 'Sub' else a * b)
+    if isinstance(e, tuple) and e and e[0] == 'cast':
+        return const_eval(e[3])
+    if isinstance(e, tuple) and e and e[0] in ('pick',):
+        return const_eval(e[1])
+    return None
+
+
+def lower_bound(e):
+    """a lower bound of an unsigned expression (unknown terms count as 0)"""
+    n = const_eval(e)
+    if n is not None:
+        return n
+    if isinstance(e, tuple) and e and e[0] == 'bin' and e[1] == 'Add':
+        return lower_bound(e[2]) + lower_bound(e[3])
+    if isinstance(e, tuple) and e and e[0] == 'bin' and e[1] == 'Mul':
+        return lower_bound(e[2]) * lower_bound(e[3])
+    if isinstance(e, tuple) and e and e[0] in ('cast', 'pick'):
+        return lower_bound(e[-1] if e[0] == 'cast' else e[1])
+    return 0
+
+
+def len_guard(S, is_buf):
+    """largest K such that the path established len(buf) >= K"""
+    best = 0
+    for f in S:
+        if f[0] != 'cmp':
+            continue
+        # !(len < K)  or  K <= len
+        if f[1] == 'lt' and f[5] is False and is_call(f[2], '::len') and is_buf(f[2]):
+            best = max(best, lower_bound(f[3]))
+        if f[1] == 'le' and f[5] is True and is_call(f[3], '::len') and is_buf(f[3]):
+            best = max(best, lower_bound(f[2]))
+        if f[1] == 'lt' and f[5] is True and is_call(f[3], '::len') and is_buf(f[3]):
+            best = max(best, lower_bound(f[2]) + 1)
+        if f[1] == 'eq' and f[5] is True:
+            for a, b in ((f[2], f[3]), (f[3], f[2])):
+                if is_call(a, '::len') and is_buf(a) and const_eval(b) is not None:
+                    best = max(best, const_eval(b))
+    return best
+
+
+def check_C11(ctx, rep):
+    prog, an = ctx.prog, ctx.an
+    rep.rule('C11.R1', 'writer/reader agreement: serialize and from_str build the same bincode options (same resolved calls, same limit constant), '
+             'use the same base64 engine constant, the same VERSION constant, and a zlib encoder resp. decoder')
+    rep.rule('C11.R2', 'bounded inflate: in from_str the ZlibDecoder value is only constructed and read through one Read::read into a buffer of '
+             'exactly MAX_DECOMPRESSED_SIZE bytes; no read_to_end/read_to_string/bytes/take/copy is applied to it; bincode deserialises '
+             'buf[..bytes_read] with the limit')
+    rep.rule('C11.R3', 'every Ok of from_str, Machine::new and the v1 parser is behind Machine::validate on the returned value (= C12.R2)')
+    rep.rule('C11.R4', 'derive completeness: every crate-local type reachable from Machine\'s fields has derived Serialize and Deserialize and '
+             'no serde attribute (skip/default/with/rename ...); name() is digest(serialize())')
+    rep.rule('C11.R5', 'panic inventory of from_str: the two str slices are behind len >= 3 and is_ascii, the unwrap behind the is_err return')
+    rep.rule('C11.R6', 'legacy v1 parser: every slice / index of the input buffers with a constant bound is covered by a dominating length '
+             'check (constant propagation of the read cursor, lower bound of the guard expression); non-constant bounds are reported as '
+             'undischarged-out-of-scope, not as violations')
+    fs = prog.fn(FW, 'Machine', 'from_str', 'FromStr')
+    se = prog.fn(FW, 'Machine', 'serialize')
+    fa = an.get(fs)
+    sa_ = an.get(se)
+    # ---- R1
+    def opt_chain(fa_):
+        out = []
+        lim = None
+        for (b, f, a, t) in calls(fa_):
+            cs = callee_str(f)
+            if cs.startswith('bincode::') or 'bincode::' in cs:
+                out.append(cs)
+                if cs.endswith('with_limit'):
+                    lim = a[1]
+        return out, lim
+    c1, l1 = opt_chain(fa)
+    c2, l2 = opt_chain(sa_)
+    mk = lambda c: [x for x in c if not x.endswith('serialize') and not x.endswith('deserialize')]
+    rep.ob('C11.R1', fs, 'same-bincode-options', mk(c1) == mk(c2) and len(mk(c1)) >= 2, 'from_str: %s / serialize: %s' % (mk(c1), mk(c2)))
+
+    def limit_const(e):
+        for x in walk(e):
+            if isinstance(x, tuple) and x and x[0] == 'cdef':
+                return x[1]
+        return None
+    rep.ob('C11.R1', fs, 'same-limit-constant', l1 is not None and l2 is not None and limit_const(l1) == limit_const(l2) == 'maybenot::constants::MAX_DECOMPRESSED_SIZE',
+           'limits %s / %s' % (show(l1), show(l2)))
+    rep.ob('C11.R1', fs, 'deserialize-serialize-pair', any(x.endswith('Options::deserialize') for x in c1) and any(x.endswith('Options::serialize') for x in c2), '')
+
+    def engine(fa_, meth):
+        for (b, f, a, t) in calls(fa_):
+            if callee_decl(f).endswith('Engine::' + meth):
+                return strip_sites(a[0])
+        return None
+    e1, e2 = engine(fa, 'decode'), engine(sa_, 'encode')
+    rep.ob('C11.R1', fs, 'same-base64-engine', e1 is not None and e1 == e2, 'decode with %s / encode with %s' % (show(e1), show(e2)))
+
+    def uses_const(fa_, key):
+        for b in fa_.cfg.reach:
+            bb = fa_.blocks[b]
+            for k, s in enumerate(bb['s']):
+                if 'p' in s and s['rv']['k'] != 'setdiscr':
+                    if contains(fa_.rvalue(s['rv'], (b, k)), lambda x: isinstance(x, tuple) and x and x[0] == 'cdef' and x[1] == key):
+                        return True
+        for body in fa_.fn.promoted:
+            if key in str(body):
+                return True
+        return False
+    rep.ob('C11.R1', fs, 'same-version-constant', uses_const(fa, 'maybenot::constants::VERSION') and uses_const(sa_, 'maybenot::constants::VERSION'), '')
+    zdec = [cs for (b, f, a, t) in calls(fa) for cs in [callee_str(f)] if 'ZlibDecoder' in cs]
+    zenc = [cs for (b, f, a, t) in calls(sa_) for cs in [callee_str(f)] if 'ZlibEncoder' in cs]
+    rep.ob('C11.R1', fs, 'zlib-pair', any(c.endswith('::new') for c in zdec) and any(c.endswith('::new') for c in zenc), 'decoder calls %s / encoder calls %s' % (zdec, zenc))
+    # ---- R2
+    allowed = ('flate2::read::ZlibDecoder::<R>::new', '<flate2::read::ZlibDecoder<R> as std::io::Read>::read')
+    for c in zdec:
+        rep.ob('C11.R2', fs, 'decoder-use:' + c.split('::')[-1], c in allowed, 'ZlibDecoder used through %s' % c)
+    rep.count_exact('C11.R2', 'Read::read calls on the decoder', sum(1 for c in zdec if c.endswith('Read>::read')), 1)
+    deny = ('read_to_end', 'read_to_string', 'read_exact', '::bytes', 'io::copy', '::take', 'read_vectored', 'BufReader', '::chain', 'read_buf')
+    for (b, f, a, t) in calls(fa):
+        cs = callee_str(f)
+        if any(d in cs for d in deny) and 'str' not in cs.split('::')[-2:][0]:
+            rep.ob('C11.R2', fs, 'unbounded-read:' + cs.split('::')[-1], False, 'call to %s in from_str' % cs)
+    # the decoder is not handed to any other function (e.g. by &mut) except read
+    dec_locals = set()
+    for (pe, v, site, mp) in stores(fa):
+        if is_call(v, 'ZlibDecoder::<R>::new') and pe[0] == 'local':
+            dec_locals.add(pe[1])
+    for (b, f, a, t) in calls(fa):
+        for x in a:
+            if x[0] == 'ref' and x[1][0] == 'local' and x[1][1] in dec_locals:
+                rep.ob('C11.R2', fs, 'decoder-borrowed-by:' + callee_str(f).split('::')[-1], callee_str(f) in allowed, '%s' % callee_str(f))
+    for (b, f, a, t) in calls(fa):
+        if callee_str(f).endswith('Read>::read') and 'ZlibDecoder' in callee_str(f):
+            buf = a[1]
+            ok = contains(buf, lambda x: is_call(x, 'from_elem') and x[2][1][0] == 'cdef' and x[2][1][1] == 'maybenot::constants::MAX_DECOMPRESSED_SIZE')
+            if not ok:
+                # buffer is a local vec: look at its definition
+                for x in walk(buf):
+                    if isinstance(x, tuple) and x and x[0] == 'local':
+                        dv = [fa.def_value(x[1], bb, kk) for (bb, kk, part) in fa.defs().get(x[1], [])]
+                        ok = ok or any(is_call(d, 'from_elem') and d[2][1][0] == 'cdef' and d[2][1][1] == 'maybenot::constants::MAX_DECOMPRESSED_SIZE' for d in dv)
+            rep.ob('C11.R2', fs, 'read-buffer-is-MAX_DECOMPRESSED_SIZE', ok, 'read into %s' % shape(buf))
+    for (b, f, a, t) in calls(fa):
+        if callee_str(f).endswith('Options::deserialize'):
+            src = a[1]
+            ok = contains(src, lambda x: isinstance(x, tuple) and x and x[0] == 'agg' and x[2] == 'RangeTo') and contains(src, lambda x: is_call(x, 'Read>::read'))
+            rep.ob('C11.R2', fs, 'deserialises-only-bytes-read', ok, 'deserialize(%s)' % shape(src))
+            okl = contains(a[0], lambda x: is_call(x, 'with_limit'))
+            rep.ob('C11.R2', fs, 'deserialises-with-limit', okl, '')
+    # ---- R3
+    check_validate_before_ok(ctx, rep, 'C11.R3')
+    # ---- R4
+    reach = set()
+    work = ['maybenot::machine::Machine']
+    while work:
+        p = work.pop()
+        if p in reach or p not in prog.adts:
+            continue
+        reach.add(p)
+        for v in prog.adts[p]['variants']:
+            for fl in v['fields']:
+                for q in prog.adts:
+                    if q.startswith('maybenot::') and q in fl['ty'] and q not in reach:
+                        work.append(q)
+    rep.count_floor('C11.R4', 'types reachable from Machine', len(reach), 8)
+    for p in sorted(reach):
+        a = prog.adts[p]
+        ser = [i for i in prog.impls if i['crate'] == FW and i['self_ty'].split('<')[0] == p and (i['trait'].endswith('ser::Serialize') or i['trait'].endswith('serde::Serialize'))]
+        de = [i for i in prog.impls if i['crate'] == FW and i['self_ty'].split('<')[0] == p and ('de::Deserialize' in i['trait'] or i['trait'].endswith('serde::Deserialize'))]
+        rep.ob('C11.R4', p.split('::')[-1], 'derived-Serialize', len(ser) == 1 and ser[0]['derived'], 'impls: %d' % len(ser))
+        rep.ob('C11.R4', p.split('::')[-1], 'derived-Deserialize', len(de) == 1 and de[0]['derived'], 'impls: %d' % len(de))
+        attrs = list(a.get('attrs', []))
+        for v in a['variants']:
+            attrs += v.get('attrs', [])
+            for fl in v['fields']:
+                attrs += fl.get('attrs', [])
+        bad = [x for x in attrs if 'serde' in x]
+        rep.ob('C11.R4', p.split('::')[-1], 'no-serde-attributes', not bad, 'serde attributes: %s' % bad[:3])
+    nm = prog.fn(FW, 'Machine', 'name')
+    na = an.get(nm)
+    okn = any(callee_str(f).endswith('digest') and contains(a[0], lambda x: is_call(x, 'Machine::serialize')) for (b, f, a, t) in calls(na))
+    rep.ob('C11.R4', nm, 'name-is-digest-of-serialize', okn, '')
+    # ---- R5
+    pf = an.paths(fs, history=True)
+    n_sl = 0
+    for (b, f, a, t) in calls(fa):
+        cs = callee_str(f)
+        if 'Index<I> for str' in cs and cs.endswith('::index'):
+            n_sl += 1
+            rg = a[1]
+            hi = 0
+            if rg[0] == 'agg':
+                d = dict(rg[3])
+                hi = max([const_eval(x) or 0 for x in d.values()] + [0])
+            st = pf.at_entry(b)
+            ok, w = all_paths(st, lambda S: len_guard(S, lambda l: contains(l, lambda x: x == ('param', 1))) >= hi and
+                              any(f2[0] == 'bcall' and f2[1].endswith('is_ascii') and f2[3] is True for f2 in S))
+            rep.ob('C11.R5', fs, 'str-slice:%s' % show(rg)[:40], ok and bool(st), 'slice %s behind len >= %d and is_ascii' % (show(rg), hi))
+        if cs.endswith('Result::<T, E>::unwrap'):
+            st = pf.at_entry(b)
+            rs = strip_sites(a[0])
+            ok, w = all_paths(st, lambda S: any(f2[0] == 'bcall' and f2[1].endswith('is_err') and f2[3] is False and
+                                                (strip_sites(f2[2][0]) == rs or show(f2[2][0]).lstrip('&*') == show(rs).lstrip('&*')) for f2 in S))
+            rep.ob('C11.R5', fs, 'unwrap-behind-is_err', ok and bool(st), 'unwrap(%s)' % shape(a[0]))
+    rep.count_exact('C11.R5', 'str slices in from_str', n_sl, 2)
+    # ---- R6 v1 parser
+    v1 = [prog.fn_opt(FW, None, n) for n in ('parse_v1_machine', 'parse_v1', 'parse_state', 'parse_dist')]
+    undis = []
+    if all(v1):
+        for fn in v1:
+            fa1 = an.get(fn)
+            pf1 = an.paths(fn, history=True)
+            for b in sorted(fa1.cfg.reach):
+                bb = fa1.blocks[b]
+                t = bb['t']
+                at = (b, len(bb['s']))
+                if t['k'] == 'call' and 'indirect' not in t['f']:
+                    cs = callee_str(t['f'])
+                    args = tuple(fa1.operand(x, at) for x in t['a'])
+                    need = None
+                    bufe = None
+                    if decl_matches(t['f'], ('ops::index::Index::index', 'ops::Index::index')) and len(args) == 2 and args[1][0] == 'agg' and args[1][2] in ('Range', 'RangeTo', 'RangeFrom', 'RangeInclusive'):
+                        d = dict(args[1][3])
+                        vals = [const_eval(x) for x in d.values()]
+                        bufe = args[0]
+                        if all(v is not None for v in vals):
+                            need = max(vals)
+                        else:
+                            undis.append('%s: %s[%s]' % (fn.name, show(bufe)[:20], show(args[1])[:60]))
+                            continue
+                    elif cs.endswith('::split_at') and len(args) == 2:
+                        bufe = args[0]
+                        need = const_eval(args[1])
+                        if need is None:
+                            undis.append('%s: split_at(%s)' % (fn.name, show(args[1])))
+                            continue
+                    if need is None:
+                        continue
+                    # which buffer: the slice/vec the index applies to
+                    def same_buf(l, bufe=bufe):
+                        bs = {x[1] for x in walk(strip_sites(bufe)) if isinstance(x, tuple) and x and x[0] in ('param', 'local')}
+                        ls = {x[1] for x in walk(l) if isinstance(x, tuple) and x and x[0] in ('param', 'local')}
+                        return bool(bs & ls)
+                    st = pf1.at_entry(b)
+                    ok, w = all_paths(st, lambda S: len_guard(S, same_buf) >= need)
+                    rep.ob('C11.R6', fn, 'const-slice:%s..%d' % (show(bufe)[-12:], need), ok and bool(st), '%s needs len >= %d; guard on path: %s' % (cs.split('::')[-1], need, 'ok' if ok else 'missing/too small'), site='%s:%d' % (fn.file, bb['ln']))
+                elif t['k'] == 'assert' and t['mk'] == 'BoundsCheck':
+                    c = fa1.operand(t['c'], at)
+                    if c[0] == 'bin' and c[1] == 'Lt':
+                        ix = const_eval(c[2])
+                        if ix is None:
+                            undis.append('%s: [%s]' % (fn.name, show(c[2])[:40]))
+                            continue
+                        st = pf1.at_entry(b)
+                        lnexpr = c[3]
+
+                        def same_buf2(l, lnexpr=lnexpr):
+                            bs = {x[1] for x in walk(strip_sites(lnexpr)) if isinstance(x, tuple) and x and x[0] in ('param', 'local')}
+                            ls = {x[1] for x in walk(l) if isinstance(x, tuple) and x and x[0] in ('param', 'local')}
+                            return bool(bs & ls)
+                        ok, w = all_paths(st, lambda S: len_guard(S, same_buf2) >= ix + 1)
+                        rep.ob('C11.R6', fn, 'const-index:%d' % ix, ok and bool(st), 'index %d needs len >= %d' % (ix, ix + 1), site='%s:%d' % (fn.file, bb['ln']))
+        rep.extra['v1_undischarged_out_of_scope'] = undis
+        rep.count_floor('C11.R6', 'constant-bound accesses checked in the v1 parser', sum(1 for o in rep.obligations if o['rule'] == 'C11.R6'), 10)
+    rep.assumptions += ['that one Read::read returns the whole payload, memory use inside flate2/bincode, and rejection of every mutated encoding are NOT decided',
+                        'v1 parser accesses with non-constant bounds are out of scope (need a relational numeric domain)',
+                        'Read::read returns at most buf.len()']
+    return 'pipeline structure of Machine::from_str/serialize, bounded inflate, validate-before-Ok, serde derive completeness, constant-bound slice guards of the v1 parser'
